@@ -143,6 +143,14 @@ PROPS = {
                            'syntactic and name-based. ') + LEDGER_NOTE,
             'not_decided': ['delta <= 1e10 with a regulariser (tau has no positive lower bound)', 'recorded best objective never increases (follows from C04, not re-proved here)',
                             'number of interpolation points between 2 and the maximum']},
+    'C06': {'bundles': ['passthru', 'box'], 'level': 'proof',
+            'level_text': 'Narrow claim. (i) Pass-through: at every call of h (17 sites) and of prox_uh (in the nested gradient_Fu) the call has the shape h(x, *argsh) / prox_uh(x, u, *argsprox) '
+                          'with exactly the tuples the caller gave to solve (ghost tokens followed through solve -> solve_main -> Controller -> Model / model_value / ctrsbox_sfista, constructor and '
+                          'keyword bindings included), and the starred calls conform for tuples of any length. (ii) True box: every projector handed to the regularised subproblem returns the absolute '
+                          'incumbent unchanged (binary64). (iii) Coordinate-space typing inside ctrsbox_sfista (scaled vs caller\'s coordinates).',
+            'level_note': 'Pass-through is a data-flow proof over opaque tokens (domain L), (ii) is in exact binary64 (domain B), (iii) is a tag discipline. NOT decided: "within 1e-3*(1+F*) of the optimum and '
+                          'success" — convergence of an iterative floating-point method; no per-call contract expresses it. ' + BOX_NOTE,
+            'not_decided': ['convergence to the regularised optimum', 'success flag']},
     'C07': {'bundles': ['inputs', 'paramcheck'], 'level': 'proof',
             'level_text': 'The prologue of solve is executed symbolically (real scalars, parameter table, symbolic user_params dict): for each of 15 listed kinds of invalid value no path '
                           'reaches the first evaluation, and the early return is the input-error result (flag, nf == 0, non-empty message, constructor call conformance); '
